@@ -297,3 +297,22 @@ Proof.
     end.
     rewrite !andb_false_r. reflexivity.
 Qed.
+
+(* ---------------------------------------------------------------- YAML plain keys *)
+Theorem safe_yaml_plain_chars : forall s, is_safe_yaml_plain s = true ->
+  s <> [] /\ Forall (fun c => yaml_plain_char c = true) s
+  /\ existsb (eq_ignore_ascii_case s) yaml_special = false.
+Proof.
+  intros s H. unfold is_safe_yaml_plain, is_safe_yaml_plain_gen in H.
+  destruct s as [|c s]; [discriminate|].
+  destruct (str_eqb (c :: s) [45] || str_eqb (c :: s) [45; 45; 45]); [discriminate|].
+  destruct (forallb yaml_plain_char (c :: s)) eqn:Hc; [|discriminate]. cbn [negb] in H.
+  destruct (existsb (eq_ignore_ascii_case (c :: s)) yaml_special) eqn:Hs; [discriminate|].
+  split; [discriminate|]. split; [|reflexivity].
+  apply Forall_forall. intros x Hx. rewrite forallb_forall in Hc. apply Hc. exact Hx.
+Qed.
+
+(* accepted as a plain key, yet a number under the YAML 1.2 core schema *)
+Theorem safe_yaml_plain_core_string_refuted :
+  exists s, is_safe_yaml_plain s = true /\ yaml12_core_nonstring s = true.
+Proof. exists [49; 101; 53]. split; vm_compute; reflexivity. Qed.
